@@ -610,6 +610,7 @@ pub fn run_l1(scn: &C10Scenario, stats: &mut RunStats) -> Vec<Violation> {
                                 }
                             } else {
                                 // what `process_events` does for a Create event
+                                tree.source_changed(Path::new(path));
                                 if let Ok(options) = exec::build_options(&opts) {
                                     let _ = tree.collect_work(&resources, &options);
                                 }
@@ -1067,7 +1068,7 @@ impl Property for C10 {
         // most runs steer clear of the triggers of open known findings so that one open
         // finding does not mask the rest of the space; every 8th run does not
         let knobs = c10gen::Knobs {
-            layer: Layer::L1,
+            layer: if index % 4 == 3 { Layer::L2 } else { Layer::L1 },
             max_ops: 12,
             allow_faults: true,
             avoid: if index % 8 == 7 { Vec::new() } else { avoid.clone() },
